@@ -238,8 +238,12 @@ func (p *path) callFunction(caller *frame, fn *ssa.Function, args []value, env [
 	}
 	p.funcs[name] = true
 	p.depth++
-	if p.depth > 200 {
-		p.abort(abortBudget, "recursion bound (200 frames) exceeded in "+name)
+	if p.depthLimit > 0 && p.depth > p.depthLimit {
+		p.depth--
+		panic(nonTermination{})
+	}
+	if p.depth > 400 {
+		p.abort(abortBudget, "recursion bound (400 frames) exceeded in "+name)
 	}
 	defer func() { p.depth-- }()
 
